@@ -192,3 +192,80 @@ func VHSetConc() {
 	}
 	vCover("setconc done")
 }
+
+// VHSetReadersConc: a whole-set reader (String, Slice, Clone, Range, Len, or an algebra operation
+// with the set as receiver or as argument) runs while one writer adds or removes a value. The
+// reader must return, race-free, a view that contains every stably present member and nothing
+// that was never added; the set itself ends in the state the writer left.
+func VHSetReadersConc() {
+	u := c09keys()
+	s := &Set[int]{}
+	in := c05prefix(s, u)
+	wkind := vChoose("writer", 2) // 0 Add, 1 Remove
+	wkey := vChoose("wkey", 2)
+	reader := vChoose("reader", 9)
+	var view []int
+	haveView := false
+	size := -1
+	vGo(func() {
+		if wkind == 0 {
+			s.Add(u[wkey])
+		} else {
+			s.Remove(u[wkey])
+		}
+	})
+	vGo(func() {
+		other := maps.Set[int]{}
+		other.Add(u[0])
+		other.Add(u[1])
+		switch reader {
+		case 0:
+			_ = s.String()
+		case 1:
+			view, haveView = s.Slice(), true
+		case 2:
+			view, haveView = s.Clone().Slice(), true
+		case 3:
+			s.Range(func(x int) bool { view = append(view, x); return true })
+			haveView = true
+		case 4:
+			size = s.Len()
+		case 5:
+			view, haveView = s.Union(maps.Set[int]{}).Slice(), true
+		case 6:
+			view, haveView = s.Intersect(other).Slice(), true
+		case 7:
+			view, haveView = other.Intersect(s).Slice(), true
+		case 8:
+			view, haveView = s.SetDiff(maps.Set[int]{}).Slice(), true
+		}
+	})
+	vAssert(vWait(), "a whole-set reader and a writer both return")
+	for k := 0; k < 2; k++ {
+		stable := in[k] && !(wkind == 1 && wkey == k) // present before and not touched by the writer
+		never := !in[k] && !(wkind == 0 && wkey == k) // absent before and not added by the writer
+		c := 0
+		for _, x := range view {
+			if x == u[k] {
+				c++
+			}
+		}
+		if haveView {
+			vAssert(c <= 1, "a concurrent view lists no member twice")
+			vAssert(!stable || c == 1, "a concurrent view contains every stably present member")
+			vAssert(!never || c == 0, "a concurrent view contains nothing that was never added")
+		}
+		want := in[k]
+		if wkey == k {
+			want = wkind == 0
+		}
+		vAssert(s.Has(u[k]) == want, "after quiescence the set is in the state the writer left")
+	}
+	for _, x := range view {
+		vAssert(x == u[0] || x == u[1], "a concurrent view invents no value")
+	}
+	if size >= 0 {
+		vAssert(size <= 2, "a concurrent Len is within the possible sizes")
+	}
+	vCover("set readers conc done")
+}
